@@ -201,6 +201,25 @@ def phase2(limit, divisor):
 if __name__ == "__main__":
     if sys.argv[1] == "phase1":
         phase1(int(sys.argv[2]) if len(sys.argv) > 2 else 8)
+    elif sys.argv[1] == "one":
+        # re-run selected survivors (by mutant index) against given checks: one <i,j,...> <P1,P2> [runs]
+        ids = {int(x) for x in sys.argv[2].split(",")}
+        surv = [json.loads(l) for l in open(os.path.join(ROOT, "survivors.jsonl"))]
+        copy = os.path.join(ROOT, "copyOne")
+        fresh_copy(copy)
+        for m in surv:
+            if m["i"] not in ids:
+                continue
+            apply(copy, m)
+            env = dict(os.environ, VERIF_REPO=copy, DSIM_OUT=os.path.join(ROOT, "outOne"))
+            for p in sys.argv[3].split(","):
+                cmd = [os.path.join(VERIF, "check"), p, "--selftest", "0"] + (["--runs", sys.argv[4]] if len(sys.argv) > 4 else [])
+                r = subprocess.run(cmd, cwd=VERIF, env=env, capture_output=True, text=True)
+                kinds = [l.strip()[:200] for l in r.stdout.splitlines() if l.strip().startswith("violation kind=")][:1]
+                print(m["i"], p, "exit", r.returncode, kinds, flush=True)
+            restore(copy, m)
+        shutil.rmtree(copy, ignore_errors=True)
+        shutil.rmtree(os.path.join(ROOT, "outOne"), ignore_errors=True)
     elif sys.argv[1] == "gen":
         print(len(gen_mutants()))
     else:
